@@ -5,6 +5,7 @@ import time
 
 from . import harness as H
 from . import c13 as H13
+from . import accessors as HACC
 
 CHECKS = {
     **{f"C03:numpy-{K}": (lambda K=K: H.chk_numpy(K, exclude_kids=("Count", "CountT", "CountTC") if K in ("UntypedLabel", "Branch") else ())) for K in H.CLASSES},
@@ -21,6 +22,7 @@ CHECKS = {
     "C09:Bag.__eq__": lambda: H.chk_eq("Bag", "sound") or H.chk_eq("Bag", "complete") or H.chk_eq("Bag", "no-raise") or H.chk_eq("Bag", "sound", True) or H.chk_eq("Bag", "complete", True) or H.chk_eq("Bag", "no-raise", True),
     "C06:Bag.__eq__": lambda: H.chk_frame("Bag", "__eq__") or H.chk_frame("Bag", "__ne__"),
     **H13.CHECKS,
+    **HACC.CHECKS,
     "C02:Bag.vector": lambda: H.chk_bag_vector("fill"),
     "C01:Bag.vector": lambda: H.chk_bag_vector("merge"),
     "C08:Bag.vector": lambda: H.chk_bag_vector("scale"),
